@@ -16,6 +16,11 @@ LEVEL_NOTE = 'Trusts: Lean kernel; correspondence sampling; policy discipline.'
 TECHNIQUE = 'Lean 4 theorems (frame property of the dispatch step; destination/flow-id of all sends) + differential correspondence + Lean trace oracle'
 
 
+
+# history-level refinement (Props/C02History, Props/C09History): the per-step theorems lifted to EVERY history against the flat-map specification
+THEOREMS = THEOREMS + ['Portus.C02.history_refines_flat_map', 'Portus.C09.spec_other_addresses_untouched', 'Portus.C09.spec_callbacks_own_flows', 'Portus.C09.spec_ready_discards_only_own']
+AUDIT_IMPORTS = ['PortusModel.Props.C09History']
+
 def project(c, r):
     return R.project(r, KEEP)
 
